@@ -46,6 +46,9 @@ def op? : Sexp → Option Op
   | .list [.atom "svEnter", n] => n.nat?.map .svEnter
   | .list [.atom "svExit"] => some .svExit
   | .list [.atom "lruCall", n] => n.nat?.map .lruCall
+  | .list [.atom "nfRepr"] => some .nfRepr
+  | .list [.atom "nfEnter"] => some .nfEnter
+  | .list [.atom "nfExit"] => some .nfExit
   | _ => none
 
 def optNat? : Sexp → Option (Option Nat)
@@ -184,6 +187,18 @@ def describeSpec (perf : Bool) (k : Nat) (aloneRecs : List (List Rec)) (conc : L
       let c := (strictPart perf (proj t conc))[i]?
       s!"thread {t} record {i} (not counting operations on shared objects): alone [{sh a}] concurrent [{sh c}]"
   | none =>
+    match (if perf then maskedFind aloneRecs conc k else none) with
+    | some (t, i, _) =>
+      let a := (maskedPart (aloneRecs.getD t []))[i]?
+      let c := (maskedPart (proj t conc))[i]?
+      s!"thread {t} record {i} (after its first cached call under COLLECT_PERF_STATS; not counting operations on shared objects, profiler ids erased): alone [{sh a}] concurrent [{sh c}]"
+    | none =>
+    match nfFind aloneRecs conc k with
+    | some t =>
+      match diffRecs (nfPart (aloneRecs.getD t [])) (nfPart (proj t conc)) with
+      | some d => s!"thread {t} repr(asynq.none_future) {d} [model = alone, impl = concurrent; bool true = '<recursion>']"
+      | none => ""
+    | none =>
     match fullFind aloneRecs conc k with
     | none => ""
     | some t =>
